@@ -260,17 +260,21 @@ void anonymize_posts::operator()(post_t& post)
   }
 
   std::list<string> account_names;
+  account_t *       master = NULL;
 
+  // The root of the posting's account tree serves as the master account;
+  // transactions generated by other filters (budget, forecast) have no journal
   for (account_t * acct = post.account;
        acct;
        acct = acct->parent) {
     std::ostringstream buf;
     buf << integer_gen() << acct << acct->fullname();
     account_names.push_front(sha1sum(buf.str(), 8));
+    master = acct;
   }
 
   account_t * new_account =
-    create_temp_account_from_path(account_names, temps, xact.journal->master);
+    create_temp_account_from_path(account_names, temps, master);
   post_t& temp = temps.copy_post(post, xact, new_account);
   temp.note = none;
   temp.add_flags(POST_ANONYMIZED);
@@ -1199,7 +1203,7 @@ void transfer_details::operator()(post_t& post)
         std::list<string> account_names;
         split_string(account_name, ':', account_names);
         temp.account = create_temp_account_from_path(account_names, temps,
-                                                     xact.journal->master);
+                                                     master);
         temp.account->add_post(&temp);
 
         temp.account->add_flags(prev_account->flags());
